@@ -156,3 +156,34 @@ Example percent_all_is_100 :
   forallb (fun n => Z.eqb (to_bits (percent100 (repeat true (S n)))) (to_bits f_hundred)) (seq 0 200) = true
   /\ forallb (fun n => Z.eqb (to_bits (percent100 (repeat false (S n)))) 0) (seq 0 200) = true.
 Proof. vm_compute. auto. Qed.
+
+(* ---------- container independence (C12): order-insensitive answers are permutation invariant ---- *)
+Theorem count_perm {A} (p : A -> bool) l l' : Permutation l l' -> count (map p l) = count (map p l').
+Proof.
+  unfold count. induction 1 as [|x l l' H IH|x y l|l l' l'' H1 IH1 H2 IH2]; cbn; auto.
+  - destruct (p x); cbn; rewrite IH; reflexivity.
+  - destruct (p x), (p y); reflexivity.
+  - congruence.
+Qed.
+
+Theorem all_perm {A} (p : A -> bool) l l' : Permutation l l' -> all_loop (map p l) = all_loop (map p l').
+Proof.
+  rewrite !all_loop_forallb. induction 1 as [|x l l' H IH|x y l|l l' l'' H1 IH1 H2 IH2]; cbn; auto.
+  - rewrite IH. reflexivity.
+  - destruct (p x), (p y); reflexivity.
+  - congruence.
+Qed.
+
+Theorem select_perm {A} (p : A -> bool) l l' :
+  Permutation l l' -> Permutation (select l (map p l)) (select l' (map p l')).
+Proof.
+  induction 1 as [|x l l' H IH|x y l|l l' l'' H1 IH1 H2 IH2]; cbn; auto.
+  - destruct (p x); auto.
+  - destruct (p x), (p y); auto. apply perm_swap.
+  - eapply Permutation_trans; eauto.
+Qed.
+
+Theorem percent_perm {A} (p : A -> bool) l l' : Permutation l l' -> percent100 (map p l) = percent100 (map p l').
+Proof.
+  intros H. unfold percent100, fcount. rewrite (count_perm p l l' H), !map_length, (Permutation_length H). reflexivity.
+Qed.
